@@ -135,7 +135,9 @@ sim::RunResult run(const Json& sc) {
     if (fired && !werr.empty()) {
       // the writer said so: nothing more is demanded of this hand-off
       bump(st, "writer_reported_fault");
-      r.fingerprint = sim::fnv1a(bytes, sim::fnv1a(werr)); r.trace_sig = sim::fnv1a(std::string("wfault-reported")); r.nontrivial = true;
+      { std::string w = werr; const std::string sd = sim::scratch_dir(); for (size_t q; (q = w.find(sd)) != std::string::npos; ) w.replace(q, sd.size(), "@/");   // the text names the file: not the pid's digits
+        r.fingerprint = sim::fnv1a(bytes, sim::fnv1a(w)); }
+      r.trace_sig = sim::fnv1a(std::string("wfault-reported")); r.nontrivial = true;
       return r;
     }
     if (fired) bump(st, "writer_survived_fault");      // it returned normally: the file must be the complete one (judged below)
